@@ -18,7 +18,7 @@ CHECKS = {
          "hop. Composition proved over EVERY history for one provider and any number of passive browsers on a once-heard, duplicating or "
          "arbitrarily delayed FIFO link (NetPair.v, NetLag.v), for two providers of unrelated types (NetTwo.v) and for any number of "
          "providers whose types are unrelated to the browsers' type, in any interleaving "
-         "(C04_browsers_follow_their_provider_among_many_partial, NetMany.v). Several instances of one type in one cache, active "
+         "(C04_browsers_follow_their_provider_among_many_partial; symmetric form with browsers of any of the types: C04_every_browser_follows_its_provider_partial; NetMany.v). Several instances of one type in one cache, active "
          "browsers and expiry inside the history are not mechanised; the end-to-end statement is also "
          "decided per run: simulated networks of 1..4 real provider stacks and 1..3 real browsers exchange packets through the real "
          "toPacket/fromPacket with per-link delays, loop-back and duplication (incl. sequential histories in which every provider "
